@@ -1,0 +1,37 @@
+//go:build verif
+
+// Contracts for /verif (build tag "verif"): //@ comment blocks and pure ghost functions only.
+package frontend
+
+import "github.com/tetratelabs/wazero/internal/engine/wazevo/ssa"
+
+var _ ssa.BasicBlock
+
+// predCount: ghost - the number of predecessors of the block being entered.
+func predCount() int { return verif_ghost_int("preds") }
+
+//@ prop C02
+// SSA builder interfaces (assumed): queries, no effect on the compiler's bounds bookkeeping.
+//@ iface (b ssa.Builder) CurrentBlock() ssa.BasicBlock
+//@   ensures r0 != nil
+//@   modifies nothing
+//@ iface (bb ssa.BasicBlock) Preds() int
+//@   ensures r0 == predCount() && r0 >= 0
+//@   modifies nothing
+//@ iface (bb ssa.BasicBlock) Pred(i int) ssa.BasicBlock
+//@   ensures r0 != nil
+//@   modifies nothing
+//@ iface (bb ssa.BasicBlock) ID() ssa.BasicBlockID
+//@   modifies nothing
+//@ iface (bb ssa.BasicBlock) Sealed() bool
+//@   modifies nothing
+
+// Bounds-check elision across a control-flow merge: the known-safe bounds carried into a block with
+// several predecessors are intersected over EVERY predecessor - a predecessor that knows nothing is
+// an empty list that empties the intersection, never a list to be left out.
+//@ func (c *Compiler) initializeCurrentBlockKnownBounds()
+//@   requires c.ssaBuilder != nil && predCount() < 1<<30
+//@   ensures[every-predecessor-intersected] predCount() >= 2 ==> len(c.bounds) == predCount() && len(c.pointers) == predCount()
+//@   nosafety
+//@   loop 1 (i int, preds int)
+//@     invariant preds == predCount() && 0 <= i && i <= preds && len(c.bounds) == i && len(c.pointers) == i
